@@ -155,11 +155,13 @@ static void vf_violation(const char* key, const char* fmt, ...) {
     snprintf(v->key, sizeof(v->key), "%s", key);
     snprintf(v->msg, sizeof(v->msg), "%s", msg);
     char pathstr[2048]; vf_path_str(pathstr, sizeof(pathstr));
-    uint64_t h = vf_hash_str(key) ^ vf_hash_str(pathstr) ^ vf_hash_str(vf_cfg);
+    uint64_t h = vf_hash_str(key) ^ vf_hash_str(pathstr) ^ (vf_hash_str(vf_cfg) * 3) ^ (vf_hash_str(VF_VARIANT) * 7);
+    { extern char** environ; for (char** e = environ; e && *e; e++) if (strncmp(*e, "MIMALLOC_", 9) == 0 || (strncmp(*e, "VF_", 3) == 0 && strncmp(*e, "VF_NO_REEXEC", 12) != 0)) h ^= vf_hash_str(*e) * 11; }
     snprintf(v->replay, sizeof(v->replay), "%s/replays/%s-%08x.txt", vf_outdir, vf_prop, (unsigned)(h & 0xffffffffu));
     FILE* f = fopen(v->replay, "w");
     if (f) {
       fprintf(f, "# replay file for property %s\nvariant %s\nkey %s\nmsg %s\ncfg %s\ndepth %d\n", vf_prop, VF_VARIANT, key, msg, vf_cfg, vf_depth);
+      { extern char** environ; for (char** e = environ; e && *e; e++) if (strncmp(*e, "MIMALLOC_", 9) == 0 || (strncmp(*e, "VF_", 3) == 0 && strncmp(*e, "VF_NO_REEXEC", 12) != 0)) fprintf(f, "env %s\n", *e); }
       for (int i = 0; i < vf_depth; i++) {
         char one[64]; vf_op_str(vf_path[i], one, sizeof(one));
         fprintf(f, "op %d %ld %ld # %s\n", vf_path[i].code, vf_path[i].a, vf_path[i].b, one);
